@@ -214,6 +214,31 @@ let model_line line =
     (match split_on_sep line with
      | [_; a; b] -> model_k a ^ " ## " ^ model_k b
      | _ -> "UNKNOWN-CASE")
+  | "N" :: _ ->
+    (* Condense: the condensed provider's signature, the public flows of the raw collection, and the
+       collection bound directly with that signature *)
+    (match split_on_sep line with
+     | [hdr; k] ->
+       let _treat = (match split_ws hdr with [_; t] -> t = "1" | _ -> false) in
+       (match split_ws k with
+        | "K" :: rest ->
+          let (te, c) = parse_chain rest in
+          let ints l = String.concat "," (List.map (fun x -> string_of_int (int_of_nat x)) l) in
+          let (rdi, rdo) = raw_down_flows te c.bc_provs and (rui, ruo) = raw_up_flows te c.bc_provs in
+          let flows = Printf.sprintf "RAWDOWN %s>%s ; RAWUP %s>%s" (ints rdi) (ints rdo) (ints rui) (ints ruo) in
+          (match condense_sig te c.bc_provs with
+           | Ok cs ->
+             let has_err = List.mem te.te_errorT cs.cs_out in
+             let outs = List.filter (fun t -> t <> te.te_errorT) cs.cs_out in
+             let inv_outs = outs @ (if has_err then [te.te_errorT] else []) in
+             let c' = { c with bc_invoke = { c.bc_invoke with d_shape = ShFnPtr (cs.cs_in, inv_outs) } } in
+             let o = model_run c' in
+             (match o.o_bind with
+              | Ok _ -> Printf.sprintf "CONDENSE ok ; SIG %s>%s e%d ; %s ## %s ## -" (ints cs.cs_in) (ints outs) (if has_err then 1 else 0) flows (show_obs te o)
+              | _ -> "CONDENSE err ; " ^ flows)
+           | _ -> "CONDENSE err ; " ^ flows)
+        | _ -> "UNKNOWN-CASE")
+     | _ -> "UNKNOWN-CASE")
   | "H" :: _ ->
     (* history-independence: whatever happened before, the collection behaves like its flat list *)
     (match split_on_sep line with
@@ -490,6 +515,68 @@ let monitor_line prop line =
        "FAIL the call did not return an error or a result: " ^ obs
      | _, "K" :: rest -> monitor_chain prop rest obs
      | _, "PAIR" :: _ -> monitor_pair prop case obs
+     | "C19", "N" :: _ ->
+       (* the condensed provider embedded in an outer chain (B) against the collection bound directly
+          with the same inputs (A), both on the implementation *)
+       (match split_on_sep case, split_on_sep obs with
+        | [hdr; k], [head; oa; ob] when String.length head >= 11 && String.sub head 0 11 = "CONDENSE ok" ->
+          let treat = (match split_ws hdr with [_; t] -> t = "1" | _ -> false) in
+          let te = (match split_ws k with "K" :: rest -> fst (parse_chain rest) | _ -> failwith "bad K") in
+          let sa = split_sections oa in
+          if not (match sec "BIND" sa with "ok" :: _ -> true | _ -> false) then
+            "FAIL the collection condenses but does not bind directly with the condensed provider's inputs and outputs: " ^ oa
+          else if String.length ob >= 10 && String.sub ob 0 10 = "B BIND err" then
+            "FAIL a chain that supplies the condensed provider's inputs does not bind: " ^ ob
+          else begin
+            let sb = split_sections (String.sub ob 2 (String.length ob - 2)) in
+            let sigsec = List.find (fun (h, _) -> h = "SIG") (split_sections head) in
+            let outs = (match snd sigsec with
+                | io :: _ -> (match String.split_on_char '>' io with
+                    | [_; o] -> if o = "" then [] else List.map int_of_string (String.split_on_char ',' o)
+                    | _ -> [])
+                | [] -> []) in
+            let vals tok =   (* x(a,b,c) -> [a;b;c] *)
+              (match String.index_opt tok '(' with
+               | Some i -> let inner = String.sub tok (i + 1) (String.length tok - i - 2) in
+                 if inner = "" then [] else String.split_on_char ',' inner
+               | None -> []) in
+            let zero t = show_val te (VZero (n t)) in
+            let nouts = List.length outs in
+            let ra = sec "RES" sa and rb = sec "RES" sb in
+            let failed tok = treat && (match List.rev (vals tok) with e :: _ -> List.length (vals tok) > nouts && e <> "nil" | [] -> false) in
+            let expect_b tok =
+              if failed tok then
+                "x(" ^ String.concat "," (List.map zero outs @ [List.nth (vals tok) nouts]) ^ ")"
+              else tok in
+            let exp_rb = List.map expect_b ra in
+            let c99 tok = "C99(" ^ String.concat "," (vals tok) ^ ")>(" ^ String.concat "," (vals tok) ^ ")" in
+            let drop_err tok = if treat && List.length (vals tok) > nouts then
+                "x(" ^ String.concat "," (List.filteri (fun i _ -> i < nouts) (vals tok)) ^ ")" else tok in
+            let is99 t = String.length t >= 4 && String.sub t 0 4 = "C99(" in
+            let lb = sec "LOG" sb in
+            let lb_inner = List.filter (fun t -> not (is99 t)) lb and lb99 = List.filter is99 lb in
+            let exp99 = List.filter_map (fun tok -> if failed tok then None else Some (c99 (drop_err tok))) ra in
+            (* the reported inputs / outputs against the statement itself (extracted Coq monitor) *)
+            let sig_ins = (match snd sigsec with
+                | io :: _ -> (match String.split_on_char '>' io with
+                    | i :: _ -> if i = "" then [] else List.map int_of_string (String.split_on_char ',' i)
+                    | [] -> [])
+                | [] -> []) in
+            let has_err = List.exists (fun t -> t = "e1") (snd sigsec) in
+            let c0 = (match split_ws k with "K" :: rest -> snd (parse_chain rest) | _ -> failwith "bad K") in
+            let sig_ok = (match condense_sig te c0.bc_provs with
+                | Ok cs -> mon_C19_sig te cs.cs_hoisted (List.map n sig_ins) (List.map n outs @ (if has_err then [te.te_errorT] else []))
+                | _ -> true) in
+            if not sig_ok then
+              "FAIL the condensed provider's inputs are not exactly the collection's unresolved inputs (a parameter is neither supplied inside nor asked for, or a type is asked for that no parameter needs), or its outputs are not the types the collection returns"
+            else
+            if rb <> exp_rb then "FAIL the outer chain returns " ^ String.concat " " rb ^ " but the collection called directly returns " ^ String.concat " " ra
+            else if lb_inner <> sec "LOG" sa then "FAIL inside the condensed provider the providers are called differently: " ^ first_diff lb_inner (sec "LOG" sa)
+            else if lb99 <> exp99 then "FAIL downstream of the condensed provider the consumer receives " ^ String.concat " " lb99 ^ ", expected " ^ String.concat " " exp99
+            else "PASS"
+          end
+        | _, [_] -> "PASS (Condense refused the collection)"
+        | _ -> "PASS (Condense refused the collection)")
      | "C11", "H" :: _ ->
        (* the property itself, on the implementation's observations alone: a never-used copy of the
           description (0), the collection after the history (1, 2, 7) and collections derived from it
